@@ -532,7 +532,11 @@ def recursion_rule(R, rid, root_name):
             if not cyc and (set(comp) & guard_callers):
                 R.ok(rid, key, "every cycle passes the depth guard (%d functions)" % len(comp), loc, sample={"reason": e["reason"]})
             else:
-                R.violation(rid, "unguarded|" + key, "the recursive component %s has a cycle that does not pass the depth guard" % named[:4], [loc])
+                cn = [P.fns[k].spath.split("::")[-1] for k in (cyc or [])]
+                R.violation(rid, "unguarded|" + "->".join(sorted(set(cn))) if cn else "unguarded|" + key,
+                            "the recursion %s -> %s never passes the depth guard: input nested deeply enough along it overflows the stack "
+                            "(abort, not an error)" % (" -> ".join(cn), cn[0] if cn else "?"),
+                            [P.fns[cyc[0]].loc() if cyc else loc])
         else:
             gf = P.fn(e["guard_in"])
             if gf is not None and (gf.key in guard_callers):
@@ -544,24 +548,26 @@ def recursion_rule(R, rid, root_name):
 
 
 def _has_cycle(g):
+    """a cycle of g as a list of nodes, or None"""
     color = {}
-    for s in g:
+    for s in sorted(g):
         if s in color:
             continue
-        stack = [(s, iter(g[s]))]
+        stack = [(s, iter(sorted(g[s])))]
         color[s] = 1
         while stack:
             v, it = stack[-1]
             adv = False
             for w in it:
                 if color.get(w) == 1:
-                    return True
+                    path = [x for x, _ in stack]
+                    return path[path.index(w):]
                 if w not in color:
                     color[w] = 1
-                    stack.append((w, iter(g[w])))
+                    stack.append((w, iter(sorted(g[w]))))
                     adv = True
                     break
             if not adv:
                 color[v] = 2
                 stack.pop()
-    return False
+    return None
